@@ -24,16 +24,23 @@ func GenSeq(t *rapid.T) *SeqCase {
 		c.Ambient = rapid.IntRange(0, busmodel.AmbAll).Draw(t, "ambient")
 	}
 	nh := rapid.IntRange(1, 6).Draw(t, "nh")
+	if rapid.IntRange(0, 5).Draw(t, "crowd") == 0 {
+		// a long handler list: small-size thresholds are crossed
+		nh = rapid.SampledFrom([]int{9, 17, 33}).Draw(t, "crowdSize")
+	}
 	for i := 0; i < nh; i++ {
 		c.Handlers = append(c.Handlers, genH(t, 3))
 	}
 	subbed := 0
 	n := rapid.IntRange(1, 25).Draw(t, "nsteps")
+	if nh > 6 {
+		n += nh
+	}
 	id := 0
 	for i := 0; i < n; i++ {
 		k := rapid.IntRange(0, 9).Draw(t, "kind")
 		switch {
-		case subbed < nh && (k < 3 || subbed == 0):
+		case subbed < nh && (k < 3 || subbed == 0 || (nh > 6 && k < 7)):
 			c.Steps = append(c.Steps, Step{K: "sub", H: subbed})
 			subbed++
 		case k == 9:
